@@ -43,7 +43,7 @@ pub struct ExecOpts {
     pub jitter_us: u64,
     /// systems that panic inside run
     pub panics: Vec<usize>,
-    /// release policy: 0 random, 1 oldest first, 2 newest first
+    /// release policy: 0 random, 1 oldest first, 2 newest first (all after the held set is stable), 3 hasty
     pub policy: u8,
 }
 
@@ -120,6 +120,11 @@ fn controller(ctx: Arc<Ctx>, opts: ExecOpts) -> ExecStats {
             }
             let n = g.waiting.len();
             let arr = g.arrivals;
+            if opts.policy == 3 && g.waiting.iter().any(|x| !g.released.contains(x)) {
+                // hasty controller: whoever arrives is released at once, so a system can finish
+                // before its siblings have even been picked up by a worker (minimal overlap)
+                break;
+            }
             let (g2, to) = ctx.cv.wait_timeout(g, quiet).unwrap();
             g = g2;
             if g.waiting.len() == n && g.arrivals == arr && n > 0 && to.timed_out() {
